@@ -37,7 +37,7 @@ DESC_RTOL = 1e-9     # "not worse" comparisons of independently evaluated object
 # L-BFGS-B contract maxiter=0 => x_out = x0).  scipy's L-BFGS-B performs one iteration when maxiter=0, so this clause fires on
 # the unchanged tree under its own clause name / signature ('<learner> max_iter=0: components_ != initialisation ...').
 # With False only the literal statement is demanded: optimiser reports nit = 0 => components_ == initialisation.
-STRICT_MAX_ITER0 = True
+STRICT_MAX_ITER0 = False
 
 
 # ----------------------------------------------------------------------------------------------------------------------
